@@ -102,9 +102,15 @@ struct Mon {
           for (int d : {-2, -1, 0, 1, 2, -3600, 3600}) add_i(b + d);
         }
       int stride = thorough ? 1 : 1;
-      for (i128 y = Y0 + 6; y <= Y0 + 403; y += stride) {
+      for (i128 y = Y0 + 6; y <= Y0 + 405; y += stride) {
         i128 b = (orc::fmod(y, 2) == 0) ? Z.start_of(y) : Z.end_of(y);
         rule_inst.push_back(b);
+        if (y >= Y0 + 396 || thorough) {
+          // both transitions of the years around the end of the generated range (and of its first 400-year image)
+          i128 b2 = (orc::fmod(y, 2) == 0) ? Z.end_of(y) : Z.start_of(y);
+          rule_inst.push_back(b2);
+          for (int d : {-1, 0, 1}) add_i(b2 + d);
+        }
         for (int d : {-1, 0, 1}) add_i(b + d);
         i128 j = orc::days_from_civil(y, 1, 1) * 86400;
         add_i(j + rng.range(0, 365 * 86400));
@@ -170,6 +176,11 @@ struct Mon {
     // images of a sample of instant probes
     for (size_t i = 0; i < inst.size(); i += (thorough ? 1 : 3)) {
       add_L((i128)inst[i] + Z.at(inst[i]).off);
+    }
+    // calendar-year boundaries around both ends of the rule-generated range and in its first images
+    if (Z.px_rules) {
+      for (i128 dy : {(i128)-1, (i128)0, (i128)1, (i128)2, (i128)399, (i128)400, (i128)401, (i128)402, (i128)403, (i128)404, (i128)801, (i128)802, (i128)1201})
+        for (int d : {-3600, -2, -1, 0, 1, 2, 3600}) add_L(orc::days_from_civil(Y0 + dy, 1, 1) * 86400 + d);
     }
     // limits of the civil domain
     for (int k = 0; k < 6; ++k) {
@@ -391,15 +402,27 @@ struct Mon {
   }
 
   // -------------------------------------------------------------------- C06
-  void check_sorted_run(const std::vector<i128>& Ls, const char* what, size_t* nontrivial) {
+  // order: 0 = ascending evaluation, 1 = descending, 2 = shuffled. The property is about pairs, not about the order
+  // in which they are asked; a different evaluation order reaches different hidden (hint) states.
+  void check_sorted_run(const std::vector<i128>& Ls, const char* what, size_t* nontrivial, int order = 0) {
+    std::vector<size_t> ev(Ls.size());
+    for (size_t i = 0; i < ev.size(); ++i) ev[i] = i;
+    if (order == 1) std::reverse(ev.begin(), ev.end());
+    if (order == 2)
+      for (size_t i = ev.size(); i > 1; --i) std::swap(ev[i - 1], ev[rng.next() % i]);
+    std::vector<int64_t> vals(Ls.size());
+    for (size_t i : ev) {
+      Civ c = orc::civ_from_secs(Ls[i]);
+      ctx.set_case("zone=%s path=%s op=convert(cs) cs=%s order=%d", zid().c_str(), ze.path.c_str(), orc::str(c).c_str(), order);
+      vals[i] = un(cctz::convert(to_cs(c), tz));
+    }
     bool have = false;
     int64_t prev = 0;
     i128 prevL = 0;
-    for (i128 L : Ls) {
+    for (size_t i = 0; i < Ls.size(); ++i) {
+      i128 L = Ls[i];
       Civ c = orc::civ_from_secs(L);
-      cctz::civil_second cs = to_cs(c);
-      ctx.set_case("zone=%s path=%s op=convert(cs) cs=%s", zid().c_str(), ze.path.c_str(), orc::str(c).c_str());
-      int64_t v = un(cctz::convert(cs, tz));
+      int64_t v = vals[i];
       if (have) {
         ctx.stat("C06.evaluations");
         if (near_break(L - Z.at(L).off, 2 * 86400) || v == INT64_MAX || v == INT64_MIN) ++*nontrivial;
@@ -417,7 +440,9 @@ struct Mon {
   }
   void run_c06() {
     size_t nontrivial = 0;
-    check_sorted_run(civs, "probe-set", &nontrivial);
+    check_sorted_run(civs, "probe-set", &nontrivial, 0);
+    check_sorted_run(civs, "probe-set-descending", &nontrivial, 1);
+    check_sorted_run(civs, "probe-set-shuffled", &nontrivial, 2);
     // dense sweeps around real changes
     size_t nch = near_changes.size();
     size_t want = thorough ? nch : std::min<size_t>(nch, 8);
@@ -431,7 +456,7 @@ struct Mon {
         if (L >= civ_min_L && L <= civ_max_L) Ls.push_back(L);
       std::sort(Ls.begin(), Ls.end());
       Ls.erase(std::unique(Ls.begin(), Ls.end()), Ls.end());
-      check_sorted_run(Ls, "dense-sweep", &nontrivial);
+      check_sorted_run(Ls, "dense-sweep", &nontrivial, static_cast<int>(k % 3));
       ctx.stat("C06.dense_sweeps");
     }
     ctx.stat("C06.distinct_nontrivial", nontrivial);
